@@ -80,8 +80,20 @@ def addr(rnd, used):
     return None
 
 
+# names with equal FNV-1a 64 digests (equal digests survive a common suffix): the destination is chosen by the name, so anything
+# that identifies a name by a 64 bit digest (a lookup cache, say) sends one of them where the other belongs
+FNV_PAIRS = (("8yn0iYCKYHlIj4-BwPqk", "GReLUrM4wMqfg9yzV3KQ"), ("gMPflVXtwGDXbIhP73TX", "LtHf1prlU1bCeYZEdqWf"))
+
+
 def names(rnd, n):
-    return [gen.name(rnd, 4) + rnd.choice(["", ".count", "%d" % rnd.randint(0, 999)]) for _ in range(n)]
+    out = [gen.name(rnd, 4) + rnd.choice(["", ".count", "%d" % rnd.randint(0, 999)]) for _ in range(n)]
+    k = 0
+    for suf in ("", ".count", ".%d" % rnd.randint(0, 99)):
+        for a, b in FNV_PAIRS:
+            if k + 1 < len(out):
+                out[k], out[k + 1] = (a + suf, b + suf) if rnd.random() < 0.5 else (b + suf, a + suf)
+                k += 2
+    return out
 
 
 def cases(rnd, n, nkeys, big=False):
